@@ -6,6 +6,9 @@ open Fzf.Props.C04
 #print axioms C04_less_trans
 #print axioms C04_slices_partition
 #print axioms C04_slices_count
+#print axioms C04_merge_is_sort
+#print axioms C04_lazy_any_order
+#print axioms C04_round_appends
 #print axioms C04_pass_get
 #print axioms C04_pass_get_tac
 #print axioms C04_asUint16_is_source
